@@ -108,10 +108,19 @@ pub fn check_c10(ident: &[u8; 16]) -> Result<(), String> {
     if le_ok != (ei == 1) || be_ok != (ei == 2) || any_ok != (ei == 1 || ei == 2) { fail!("from_ei_data({}) accept sets wrong: LE {} BE {} Any {}", ei, le_ok, be_ok, any_ok); }
     let r = elf::file::parse_ident::<AnyEndian>(ident);
     let magic_ok = ident[0..4] == [0x7f, b'E', b'L', b'F'];
-    let want = if !magic_ok { 1 } else if ident[6] != 1 { 2 } else if ident[4] != 1 && ident[4] != 2 { 3 } else if ei != 1 && ei != 2 { 4 } else { 0 };
-    let got = match &r { Ok(_) => 0, Err(PE::BadMagic(m)) if m[..] == ident[0..4] => 1, Err(PE::UnsupportedVersion((v, 1))) if *v == ident[6] as u64 => 2,
-                         Err(PE::UnsupportedElfClass(c)) if *c == ident[4] => 3, Err(PE::UnsupportedElfEndianness(d)) if *d == ei => 4, Err(_) => 9 };
-    if got != want { fail!("parse_ident classified the ident as {} (0 ok,1 magic,2 version,3 class,4 data,9 other), expected {}", got, want); }
+    let version_ok = ident[6] == 1; let class_ok = ident[4] == 1 || ident[4] == 2; let data_ok = ei == 1 || ei == 2;
+    let defects = (!magic_ok) as u8 + (!version_ok) as u8 + (!class_ok) as u8 + (!data_ok) as u8;
+    if (defects == 0) != r.is_ok() { fail!("parse_ident is_ok() == {} for an ident with {} defects", r.is_ok(), defects); }
+    // a file whose ONLY defect is X is rejected with the error naming X, carrying the bytes found
+    if defects == 1 {
+        let named = match &r {
+            Err(PE::BadMagic(m)) => !magic_ok && m[..] == ident[0..4],
+            Err(PE::UnsupportedVersion((v, _))) => !version_ok && *v == ident[6] as u64,
+            Err(PE::UnsupportedElfClass(c)) => !class_ok && *c == ident[4],
+            Err(PE::UnsupportedElfEndianness(d)) => !data_ok && *d == ei,
+            _ => false };
+        if !named { fail!("the only defect (magic ok {}, version ok {}, class ok {}, data ok {}) was not reported as what it is: {:?}", magic_ok, version_ok, class_ok, data_ok, r.as_ref().err()); }
+    }
     if let Ok((e, c, osabi, abiver)) = r {
         if e.is_little() != (ei == 1) || (c == Class::ELF32) != (ident[4] == 1) || osabi != ident[7] || abiver != ident[8] { fail!("parse_ident Ok tuple wrong"); }
     }
